@@ -26,7 +26,7 @@ MODELLED_NOT_VERIFIED = [
     "C16: the indexing rules of StateAlphabet (which index a symbol gets, gap/no-data handling, case variants) are re-stated in "
     "harness/gen/c16alphabets.py, only the symbol tables are extracted from charstatemodel.py; the rules are tied to the code by the `sets` "
     "comparison of every generated row with the real taxon_state_sets_map; custom per-column alphabets are described to the model by "
-    "their definition (fundamental symbols, ambiguity members, gap/missing flag) and follow the same rules (Model customSet), no theorem",
+    "their definition (fundamental symbols, ambiguity members, gap/missing flag) and follow the same rules (Model customSet)",
     "C16: fitch_up_pass is outside the statement and is not modelled; weights are natural numbers (negative weights have no minimum reading); "
     "post-order iteration is taken from C15; which exception class a call outside the statement raises is not compared (only that it raises)",
 ]
@@ -39,7 +39,12 @@ EXPLANATION = ("Theorems about the functions the driver runs (parsimony = runNod
                "score_minimal_unrooted (assignments of the trifurcating tree itself), bychar_sum, history_independent. "
                "child_order_independent; root_position_independent (every sequence of root slides) + reroot_reaches_every_edge (every edge is "
                "reached). table_ok / table_nonzero / rowOfSymbols_nonzero: the generated symbol tables never denote an empty set, "
-               "gaps-as-missing removes exactly the gap state, every driver-built matrix satisfies the theorems' RectM. No _partial theorem. "
+               "gaps-as-missing removes exactly the gap state, every driver-built matrix satisfies the theorems' RectM "
+               "(colSymbolSet_nonzero / rowOfCols_nonzero / matrixOf_rectM: also for custom per-column alphabets). Polytomies: "
+               "polytomy_score_spec / polytomy_score_minimal (the fold over extra children is Fitch on the ladder resolution, any tree "
+               "without unary nodes). Weights: score_linear_add, score_linear_smul, score_unweighted. Gaps: gaps_as_missing_monotone, "
+               "table_gap_ok, symbolSet_gapRel, gaps_flag_monotone (gaps_as_missing=True never scores higher, end to end through matrixOf). "
+               "No _partial theorem. "
                "Hypotheses: distinct node identities; for the value theorems ViewU, RectM (rows of one length), one weight per character.")
 
 # ------------------------------------------------------------------ independent state-set semantics (the oracle's own tables)
